@@ -300,7 +300,7 @@ def run(ctx):
     ctx.coq_props()
     rng = ctx.rng
     quick = ctx.tier == "quick"
-    ncl, nvs = (34, 40) if quick else (220, 300)
+    ncl, nvs = (28, 30) if quick else (120, 160)
     cap_words, cap_sent = (30, 14) if quick else (64, 24)
     cases = [dict(c) for c in CORPUS]
     while sum(c["t"] == "closure" for c in cases) < ncl:
